@@ -114,7 +114,7 @@ PROPS = {
                      "payload '1'*len is representative for length-only behaviour of version selection"],
     ),
     "C09": dict(
-        module="FastQr.Props.C09",
+        module="FastQr.Props.C09", more_modules=["FastQr.Props.C09Built"],
         level="proof",
         key=key_classify,
         rule="cases: QRBuilder with automatic mode, observed QRCode.mode; empty string, all 256 one-byte strings, two-byte "
